@@ -15,6 +15,7 @@ const prop = "C01"
 
 var (
 	P, R, D, E = hn.Pass, hn.Replace, hn.Drop, hn.Err
+	EV         = hn.ErrEv
 )
 
 // scriptVectors enumerates the behaviour vectors of a pipeline of n nodes up to
@@ -28,7 +29,7 @@ func scriptVectors(n int) [][]hn.Script {
 			out = append(out, append([]hn.Script(nil), cur...))
 			return
 		}
-		for _, t := range []hn.Script{D, E} {
+		for _, t := range []hn.Script{D, E, EV} {
 			v := append(append([]hn.Script(nil), cur...), t)
 			for len(v) < n {
 				v = append(v, P)
@@ -147,6 +148,17 @@ func scenarios(tier string) []*hn.Scenario {
 			Pipe("t1", "p1", "m", "s1").
 			Node("m.v2", "m", el.NodeTypeFormatter, R).
 			Pipe("t1", "p2", "m", "s2"), cancel, b1, true)
+		// overwrite with the same node ids in a different order
+		add(hn.NewBuilder("D overwrite-reordered").
+			Node("f1", "f1", el.NodeTypeFilter, P).Node("f2", "f2", el.NodeTypeFilter, R).
+			Node("m", "m", el.NodeTypeFormatter, P).Node("s", "s", el.NodeTypeSink, D).
+			Pipe("t1", "p1", "f1", "f2", "m", "s").Pipe("t1", "p1", "f2", "f1", "m", "s"), cancel, 2, true)
+		// rebind a node id, then re-register the pipeline with the very same id list: the new object must be used
+		add(hn.NewBuilder("D rebind-then-reregister-same-ids").
+			Node("m.v1", "m", el.NodeTypeFormatter, P).Node("s", "s", el.NodeTypeSink, D).
+			Pipe("t1", "p1", "m", "s").
+			Node("m.v2", "m", el.NodeTypeFormatter, R).
+			Pipe("t1", "p1", "m", "s"), cancel, 2, true)
 		// overwrite twice, then remove the other pipeline
 		add(hn.NewBuilder("D overwrite-twice").Std("t1", "p1", P, D).Std("t1", "p2", P, D).
 			Node("m3", "m3", el.NodeTypeFormatter, P).Node("s3", "s3", el.NodeTypeSink, D).
@@ -185,7 +197,7 @@ func main() {
 			ex := &vrt.Explorer{Bound: sc.Bound, Permute: sc.Permute, Body: body(sc)}
 			return hk.ExploreJob(prop, job, deadline, ex, sc.Describe())
 		},
-		Rule: "configurations: one pipeline with 2..5 nodes x every reachable behaviour vector over {pass, replace, drop, error}; two pipelines x behaviour vectors x sharing patterns (shared root / formatter+sink / root-is-inner / duplicated id); 3-4 pipelines over 1-3 event types; registration histories (order, overwrite, remove+re-register, re-registered node id); each explored over all schedules within the preemption bound and all sync.Map.Range visiting orders, with the context never cancelled, cancelled concurrently at every scheduling point, or before the call. Oracle: the recorded node invocations must decompose (brute-force matching on event-pointer identity and call/return order) into exactly one in-order traversal per registered pipeline of the sent type (a prefix of it under cancellation), with nothing left over.",
+		Rule: "configurations: one pipeline with 2..5 nodes x every reachable behaviour vector over {pass, replace, drop, error, error together with an event}; two pipelines x behaviour vectors x sharing patterns (shared root / formatter+sink / root-is-inner / duplicated id); 3-4 pipelines over 1-3 event types; registration histories (order, overwrite, overwrite with the same ids reordered, rebind a node id then re-register the same id list, remove+re-register, re-registered node id); each explored over all schedules within the preemption bound and all sync.Map.Range visiting orders, with the context never cancelled, cancelled concurrently at every scheduling point, or before the call. Oracle: the recorded node invocations must decompose (brute-force matching on event-pointer identity and call/return order) into exactly one in-order traversal per registered pipeline of the sent type (a prefix of it under cancellation), with nothing left over.",
 		Assumptions: []string{
 			"recording nodes are harness code; they log (node, event pointer, payload pointer, returned event, error, call/return sequence numbers)",
 			"preemption bound 1-2 per scenario (reported in each sample); sync.Map.Range order is an explored permutation",
